@@ -4,6 +4,7 @@ import (
 	"go/token"
 	"go/types"
 	"sort"
+	"strings"
 
 	"golang.org/x/tools/go/ssa"
 )
@@ -126,6 +127,9 @@ func (w *World) buildCallSites() {
 	w.sites = map[*ssa.Function][]ssa.CallInstruction{}
 	w.cbOK = map[*ssa.Function]bool{}
 	for _, fn := range w.repoFns {
+		if fn.Synthetic != "" && strings.HasPrefix(fn.Synthetic, "wrapper") {
+			continue // the promoted-method wrapper the compiler adds for an embedded type: not a call in the source
+		}
 		for _, b := range fn.Blocks {
 			for _, ins := range b.Instrs {
 				if c, ok := ins.(ssa.CallInstruction); ok {
